@@ -189,8 +189,20 @@ def run(ck):
             level = rand_level(ck.rng, depth) if mode in ("level", "both") else None
             box = rand_box(ck.rng, t) if mode in ("box", "both", "resbox") else None
             res = None
+            if qi == 2:
+                # on every tree: the whole XY extent as a 2-D box with whole-number faces, given as integers
+                mode = "box"
+                lo2 = [float(math.floor(t.root_grid[i] * t.scale + t.offsets[i]) - 1) for i in range(2)]
+                hi2 = [float(math.ceil((t.root_grid[i] + t.G) * t.scale + t.offsets[i]) + 1) for i in range(2)]
+                box = ("enclose_whole", lo2, hi2)
+                level = None
+            if qi == 1:
+                mode = "res"        # on every tree: a resolution that is exactly the spacing of one of its levels
             if mode in ("res", "resbox"):
                 res = t.spacing / 2.0 ** ck.rng.randrange(-2, 6) * ck.rng.choice([1.0, 1.25, 0.75])
+                if qi == 1:
+                    res = t.spacing / 2.0 ** ck.rng.randrange(0, depth + 1)
+                    level, box = None, None
             inp = {"kind": "query", "tree": ti, "depth": depth, "nodes": len(t.nodes), "pages": len(t.entries), "malform": malform,
                    "level": None if level is None else level_tok(level), "box": None if box is None else [box[0], [repr(v) for v in box[1]], [repr(v) for v in box[2]]],
                    "resolution": res, "fmt": t.fmt}
@@ -201,7 +213,7 @@ def run(ck):
             if malform:
                 ck.count("malformed:" + malform[0])
             bounds = Bounds(np.array(box[1]), np.array(box[2])) if box else None
-            if box and all(float(v).is_integer() and abs(v) < 2 ** 31 for v in box[1] + box[2]) and ck.rng.random() < 0.7:
+            if box and all(float(v).is_integer() and abs(v) < 2 ** 31 for v in box[1] + box[2]) and (qi == 2 or ck.rng.random() < 0.7):
                 # the same box given with integer faces (an integer array): the result must not depend on the dtype of the faces
                 ck.count("box_given_as_integers" + (":2d" if len(box[1]) == 2 else ""))
                 inp["box_dtype"] = "int"
